@@ -411,6 +411,8 @@ def c14(F, R):
     e7_containers.empty_emplacers(F, R)
     e1_layout.layout_rules(F, R)
     e9_witness.witness_rules(F, R)
+    e7_containers.filling_emplacers(F, R)   # a refused tail emplacer must not leave a stale length under a new tag (R2.refusal-leaves-valid)
+    composite_limit(F, R)                    # ... the remaining one-pass hole (nested enum tails) is a recorded finding here as well
     FOUNDATION(F, R)
 
 
